@@ -12,7 +12,7 @@ import (
 
 func init() {
 	register("C10", propMeta{
-		Explanation: "E-CONST + E-GUARD + E-PAIR + E-PANIC on common/amp. O-1 size constants: bytesPerChunk = 32, elementSizeLimit = 32 KiB, 1 + chunksPerElement*(bytesPerChunk+1) <= elementSizeLimit, and in decodeToWriter tokenizer.SetMaxBuf(c) with c >= that encoder maximum lies on every path between html.NewTokenizer and the first tokenizer.Next (bounded buffering). O-2 whitespace vocabulary: the case set of isASCIIWhitespace is {09, 0a, 0c, 0d, 20} and every separator the encoder writes after a word is in it. O-3 version, alphabet and single stream agree: the encoder writes the version byte '0' through the element encoder before creating the base64 encoder; armorEncoder.Write feeds the payload only through that one streaming base64 encoder; the decoder accepts exactly '0', returns ErrUnknownVersion otherwise; both sides use base64.StdEncoding. O-4 structural errors are errors: the 'inside a pre element' state becomes true only on its false edge and false only on its true edge, by literal transitions; a nested start tag, a stray end tag and end of input inside an element each lead to a return that never re-enters the loop; text reaches the output only on the active edge. O-5 no hang or leak: the decoder goroutine closes the pipe with the decode error on every path and every error return of NewArmorDecoder closes the read side first. O-6 no termination construct reachable from the encoder and decoder entry points. O-7 the one Read whose count is discarded (the version byte from the io.Pipe) is fed only by writes of scanner tokens. Added after the second seeding round: O-5 also requires that no path leads from the tokenizer's ErrorToken case back to Next() (the error is sticky: the loop would spin); O-8 no function of common/amp returns, writes, appends/copies into, or calls a method on a package-level object (compiled regexps, base64 alphabets and sync primitives excepted). Added after the fourth seeding round: O-1b the element encoder's two counters are only advanced (old value plus something) or restarted at zero behind the comparison with their limit, and every payload write is followed by an advance of the chunk counter. Added after the fifth seeding round: decodeToWriter returns success only behind the end-of-input token test; the base64 decoder returned by NewArmorDecoder reads the pipe itself (no limiting reader in between). Added after the sixth seeding round and the mutation audit: O-7b every token return of splitASCIIWhitespace advances to the token's end in data or one past it (bounds composed through nested slices, compared symbolically); O-7/C11 the AMP exchange caps the body it reads, not the decoder's output.",
+		Explanation: "E-CONST + E-GUARD + E-PAIR + E-PANIC on common/amp. O-1 size constants: bytesPerChunk = 32, elementSizeLimit = 32 KiB, 1 + chunksPerElement*(bytesPerChunk+1) <= elementSizeLimit, and in decodeToWriter tokenizer.SetMaxBuf(c) with c >= that encoder maximum lies on every path between html.NewTokenizer and the first tokenizer.Next (bounded buffering). O-2 whitespace vocabulary: the case set of isASCIIWhitespace is {09, 0a, 0c, 0d, 20} and every separator the encoder writes after a word is in it. O-3 version, alphabet and single stream agree: the encoder writes the version byte '0' through the element encoder before creating the base64 encoder; armorEncoder.Write feeds the payload only through that one streaming base64 encoder; the decoder accepts exactly '0', returns ErrUnknownVersion otherwise; both sides use base64.StdEncoding. O-4 structural errors are errors: the 'inside a pre element' state becomes true only on its false edge and false only on its true edge, by literal transitions; a nested start tag, a stray end tag and end of input inside an element each lead to a return that never re-enters the loop; text reaches the output only on the active edge. O-5 no hang or leak: the decoder goroutine closes the pipe with the decode error on every path and every error return of NewArmorDecoder closes the read side first. O-6 no termination construct reachable from the encoder and decoder entry points. O-7 the one Read whose count is discarded (the version byte from the io.Pipe) is fed only by writes of scanner tokens. Added after the second seeding round: O-5 also requires that no path leads from the tokenizer's ErrorToken case back to Next() (the error is sticky: the loop would spin); O-8 no function of common/amp returns, writes, appends/copies into, or calls a method on a package-level object (compiled regexps, base64 alphabets and sync primitives excepted). Added after the fourth seeding round: O-1b the element encoder's two counters are only advanced (old value plus something) or restarted at zero behind the comparison with their limit, and every payload write is followed by an advance of the chunk counter. Added after the fifth seeding round: decodeToWriter returns success only behind the end-of-input token test; the base64 decoder returned by NewArmorDecoder reads the pipe itself (no limiting reader in between). Added after the sixth seeding round and the mutation audit: O-7b every token return of splitASCIIWhitespace advances to the token's end in data or one past it (bounds composed through nested slices, compared symbolically); O-7/C11 the AMP exchange caps the body it reads, not the decoder's output. O-8/O-9 the same two error-discipline rules for common/amp.",
 		NotDecided:  "round-trip equality and re-chunking invariance over actual bytes (value-level), the HTML tokenizer's behaviour (third-party).",
 		Assumptions: []string{"golang.org/x/net/html honours SetMaxBuf", "encoding/base64 streaming encoder/decoder are inverse"},
 	}, runC10)
@@ -28,6 +28,8 @@ func runC10(c *Ctx) {
 		c.prefix = ""
 	}
 	amp := p.FnsIn("common/amp")
+	c.checkDecodeErrorsConsumed("O-8 a decoding step's error is part of the verdict", amp)
+	c.checkErrorBranchesLeave("O-9 a failed step ends the function", amp)
 	for _, fn := range amp {
 		c.analysedFn(p.FnName(fn))
 	}
